@@ -76,6 +76,22 @@ let () =
            Printf.sprintf "%d,%d,%d,%d,%d,%s" (int_of_n s.s_gid) (int_of_z s.s_adv) x y (match s.s_par with Some p -> nat_to_int p | None -> -1)
              (String.concat "/" (List.map (fun u -> string_of_int (int_of_z u)) s.s_user))) (idx 0 out))))
        with Failure m -> Printf.printf "%s R UNPARSABLE %s\n" id m | Not_found -> Printf.printf "%s R UNPARSABLE\n" id)
+     | [id; "gdlL"; nsub; prog; advs; input] ->
+       (* the loop trace: per executed pass  /maxloop,mu0:  then  mu,lc,reset,live;  per iteration (the iteration in which the machine died is not reported: the engine returns before its hook) *)
+       (try
+         let passes = List.map parse_pass (split '/' prog) in
+         let at = Array.of_list (List.map int_of_string (split ',' advs)) in
+         let adv g = let i = int_of_n g in z_of_int (if i < Array.length at then at.(i) else 0) in
+         let l0 = List.map (fun x -> let g = n_of_int (int_of_string x) in mkslot g (adv g) Z0) (List.filter (fun x -> x <> "") (split ',' input)) in
+         let rec nat_to_int = function O -> 0 | S n -> 1 + nat_to_int n in
+         let tr = run_trace adv (nat_of_int (int_of_string nsub)) passes l0 in
+         let b = Buffer.create 256 in
+         List.iter (fun (((ml, mu0), os), dead) ->
+           Buffer.add_string b (Printf.sprintf "/%d,%d:" (nat_to_int ml) (int_of_n mu0));
+           let os = if dead then (match List.rev os with _ :: r -> List.rev r | [] -> []) else os in
+           List.iter (fun o -> Buffer.add_string b (Printf.sprintf "%d,%d,%d,%d;" (int_of_n o.o_mu) (int_of_n o.o_lc) (if o.o_reset then 1 else 0) (if o.o_live then 1 else 0))) os) tr;
+         Printf.printf "%s T %s\n" id (if Buffer.length b = 0 then "-" else Buffer.contents b)
+       with Failure m -> Printf.printf "%s T UNPARSABLE %s\n" id m | Not_found -> Printf.printf "%s T UNPARSABLE\n" id)
      | id :: _ -> Printf.printf "%s R BAD\n" id
      | [] -> print_endline "? R BAD")
   done with End_of_file -> ()
